@@ -104,6 +104,9 @@ def mesh_op(m, op):
         return m.remove_unused_nodes()
     if k == 'morphed':
         return m.morphed(lambda p: p[0] + 0.125 * p[0] * p[0])
+    if k == 'from_arrays':
+        # a new first-order mesh of the same class built directly on this mesh's own arrays (the constructor may normalise, not touch)
+        return type(m)(m.p, m.t)
     if k == 'same_points':
         # another mesh on the SAME point array object (sub-meshes, re-triangulations and m @ n parts share it): cells in reverse
         return type(m)(m.p, m.t[:, ::-1])
@@ -374,7 +377,7 @@ def apply(s, step, ctx):
             s.reuse += 1
         after()
     elif op == 'mesh_op':
-        kinds = ['refined', 'adaptive', 'translated', 'scaled', 'mirrored', 'restrict', 'tagged', 'oriented', 'removed_unused', 'morphed', 'same_points']
+        kinds = ['refined', 'adaptive', 'translated', 'scaled', 'mirrored', 'restrict', 'tagged', 'oriented', 'removed_unused', 'morphed', 'same_points', 'from_arrays']
         k = kinds[step['kind'] % len(kinds)]
         if k == 'adaptive' and kind not in ('tri', 'tet', 'line'):
             k = 'refined'
@@ -385,6 +388,8 @@ def apply(s, step, ctx):
         if k == 'mirrored' and type(m).__name__.endswith('2'):
             k = 'translated'
         if k == 'same_points' and (type(m).__name__.endswith('2') or m.subdomains or m.boundaries):
+            k = 'translated'
+        if k == 'from_arrays' and type(m).__name__.endswith('2'):
             k = 'translated'
         if k in ('restrict', 'removed_unused') and m.nelements < 2:
             raise Reject()
@@ -575,6 +580,13 @@ class PoolMachine(HistoryMachine):
     @rule(mesh=INT, solver=INT, kw=INT)
     def solve(self, mesh, solver, kw):
         self.do(dict(op='solve', mesh=mesh, solver=solver, kw=kw))
+
+    # a mesh whose cells are not ascending (oriented), then another mesh constructed on its arrays
+    @rule(mesh=INT)
+    def construct_on_arrays_of_oriented(self, mesh):
+        self.do(dict(op='mesh_op', mesh=mesh, kind=7, picks=[0]))
+        self.do(dict(op='mesh_op', mesh='last', kind=11, picks=[0]))
+        self.do(dict(op='touch', mesh=2, attr=1))
 
     # one solver object, two different systems of equal size one after the other
     @rule(mesh=INT, solver=INT)
